@@ -30,6 +30,14 @@ type SpecEnv struct {
 	useCells bool
 	fn       *ssa.Function // scope for Go names / types
 	depth    int
+	cellSt   *State // state used to read local variables (old() switches heaps/ghosts only)
+}
+
+func (env *SpecEnv) cells() *State {
+	if env.cellSt != nil {
+		return env.cellSt
+	}
+	return env.st
 }
 
 func (f *Frame) specEnv(st *State) *SpecEnv {
@@ -207,6 +215,9 @@ func (env *SpecEnv) formula(e *Expr) (*Term, error) {
 
 func (env *SpecEnv) withState(st *State) *SpecEnv {
 	n := *env
+	if n.cellSt == nil {
+		n.cellSt = env.st
+	}
 	n.st = st
 	return &n
 }
@@ -304,13 +315,13 @@ func (env *SpecEnv) lookupIdent(name string) (SV, bool, error) {
 			}
 		}
 		if base == "visited" && env.loop != nil && env.loop.visited != nil && ord == 0 {
-			if v, ok := env.st.cells[env.loop.visited]; ok {
+			if v, ok := env.cells().cells[env.loop.visited]; ok {
 				return SV{t: v}, true, nil
 			}
 		}
 		if base == "visited" && ord > 0 {
 			if c, ok := f.visitedN[ord]; ok {
-				if v, ok := env.st.cells[c]; ok {
+				if v, ok := env.cells().cells[c]; ok {
 					return SV{t: v}, true, nil
 				}
 			}
@@ -333,7 +344,7 @@ func (env *SpecEnv) lookupIdent(name string) (SV, bool, error) {
 					declared = et
 				}
 				if c, ok := f.cells[a]; ok {
-					if v, live := env.st.cells[c]; live {
+					if v, live := env.cells().cells[c]; live {
 						return SV{t: v, typ: et}, true, nil
 					}
 					if ord != 0 {
@@ -343,7 +354,7 @@ func (env *SpecEnv) lookupIdent(name string) (SV, bool, error) {
 				}
 				if f.escapes[a] {
 					if r, ok := f.vals[a].(*Term); ok {
-						return SV{t: env.st.load(&Addr{ref: r, base: et, typ: et}), typ: et}, true, nil
+						return SV{t: env.cells().load(&Addr{ref: r, base: et, typ: et}), typ: et}, true, nil
 					}
 				}
 				if ord != 0 {
@@ -376,7 +387,7 @@ func (env *SpecEnv) lookupIdent(name string) (SV, bool, error) {
 		return SV{}, false, fmt.Errorf("ghost %s not initialised", name)
 	}
 	switch name {
-	case "now":
+	case "time_now":
 		return SV{t: env.st.clock, typ: nil}, true, nil
 	case "alloc_mark":
 		return SV{t: env.st.alloc}, true, nil
@@ -885,6 +896,30 @@ func (env *SpecEnv) call(e *Expr) (SV, error) {
 		env.f.root.hyps = append(env.f.root.hyps, tImp(tGt(hi.t, lo.t), tEq(r, tStore(r1, hm1, tTrue()))))
 		env.f.root.hyps = append(env.f.root.hyps, tImp(tLe(hi.t, lo.t), tEq(r, tConstArr(srt, tFalse()))))
 		return SV{t: r}, nil
+	case "reached":
+		// reached("Callee", k): the k-th static call of Callee was executed on the path to this point
+		if len(e.Args) != 2 || e.Args[0].Kind != "str" || e.Args[1].Kind != "int" {
+			return SV{}, fmt.Errorf("reached(\"Callee\", k)")
+		}
+		k, _ := strconv.Atoi(e.Args[1].Name)
+		n := 0
+		for _, b := range env.f.fn.Blocks {
+			for _, ins := range b.Instrs {
+				c, ok := ins.(*ssa.Call)
+				if !ok || !siteMatches(e.Args[0].Name, staticDisplay(&c.Call)) {
+					continue
+				}
+				n++
+				if n != k {
+					continue
+				}
+				if pc, ok := env.f.sitePC[c]; ok {
+					return SV{t: pc, typ: boolT}, nil
+				}
+				return SV{t: tFalse(), typ: boolT}, nil
+			}
+		}
+		return SV{}, fmt.Errorf("reached: call site %s#%d not found (stale contract)", e.Args[0].Name, k)
 	case "resultof":
 		// resultof("Callee", k [, i]): value returned by the k-th static call of Callee in this function
 		if len(e.Args) < 2 || e.Args[0].Kind != "str" || e.Args[1].Kind != "int" {
